@@ -110,19 +110,29 @@ def shift (left : Bool) (a b : Val) : R Val :=
     else .ok (.byte (wrap8 (if left then x <<< s8 else x >>> s8)))
   | _, _ => .stuck "shift"
 
+mutual
 /-- structural equality (`gleich`) -/
-partial def equalVals : Val → Val → Bool
+def equalVals : Val → Val → Bool
   | .int x, .int y => x == y
   | .float x, .float y => x == y           -- IEEE: NaN ≠ NaN
   | .byte x, .byte y => x == y
   | .bool x, .bool y => x == y
   | .char x, .char y => x == y
   | .text x, .text y => x == y
-  | .list _ xs, .list _ ys => xs.length == ys.length && (xs.zip ys).all (fun p => equalVals p.1 p.2)
-  | .struct _ fx, .struct _ fy => fx.length == fy.length && (fx.zip fy).all (fun p => equalVals p.1.2 p.2.2)
+  | .list _ xs, .list _ ys => equalList xs ys
+  | .struct _ fx, .struct _ fy => equalFields fx fy
   | .any none, .any none => true
   | .any (some (tx, x)), .any (some (ty, y)) => tx == ty && equalVals x y
   | _, _ => false
+def equalList : List Val → List Val → Bool
+  | [], [] => true
+  | x :: xs, y :: ys => equalVals x y && equalList xs ys
+  | _, _ => false
+def equalFields : List (String × Val) → List (String × Val) → Bool
+  | [], [] => true
+  | (_, x) :: xs, (_, y) :: ys => equalVals x y && equalFields xs ys
+  | _, _ => false
+end
 
 /-- bit pattern of a primitive list element as the generated `memcmp` sees it -/
 def clampI (i lo hi : Int) : Int := let t := if i < lo then lo else i; if t > hi then hi else t
@@ -161,14 +171,16 @@ def tyOfVal : Val → Ty
 def concatVals (a b : Val) : R Val :=
   match a, b with
   | .text x, .text y => .ok (.text (x ++ y))
-  | .text x, .char c => .ok (.text (x ++ (if c ≥ 0 then [c.toNat] else [])))
-  | .char c, .text y => .ok (.text ((if c ≥ 0 then [c.toNat] else []) ++ y))
+  | .text x, .char c =>
+    if c < 0 || c > 0x10FFFF || (0xD800 ≤ c && c ≤ 0xDFFF) then .undef "Buchstabe outside Unicode" else .ok (.text (x ++ (if c > 0 then [c.toNat] else [])))
+  | .char c, .text y =>
+    if c < 0 || c > 0x10FFFF || (0xD800 ≤ c && c ≤ 0xDFFF) then .undef "Buchstabe outside Unicode" else .ok (.text ((if c > 0 then [c.toNat] else []) ++ y))
   | .list t xs, .list _ ys => .ok (.list t (xs ++ ys))
   | .list t xs, y => .ok (.list t (xs ++ [y]))
   | x, .list t ys => .ok (.list t (x :: ys))
   | x, y => .ok (.list (tyOfVal x) [x, y])
 
-partial def defaultVal (structs : List StructDecl) (dflt : Expr → Val) : Ty → Val
+def defaultVal (structs : List StructDecl) (dflt : Expr → Val) : Ty → Val
   | .zahl => .int 0 | .komma => .float 0.0 | .byte => .byte 0 | .wahr => .bool false | .buchstabe => .char 0
   | .text => .text [] | .variable => .any none | .nichts => .any none
   | .liste e => .list e []
@@ -189,11 +201,20 @@ def textToInt (cps : List Nat) : Int :=
 /-- numeric conversion of initialisers / assignments / casts (`numericCast`) -/
 def numCast (t : Ty) (v : Val) : R Val :=
   match t with
-  | .zahl => (match v.toInt? with | some i => .ok (.int i) | none => .stuck "numCast")
+  | .zahl =>
+    (match v with
+     | .float f =>
+       -- fptosi is undefined outside the 64-bit range
+       if f.isNaN || f ≥ 9223372036854775808.0 || f < -9223372036854775808.0 then .undef "Kommazahl outside the range of Zahl"
+       else .ok (.int (floatToInt f))
+     | _ => match v.toInt? with | some i => .ok (.int i) | none => .stuck "numCast")
   | .komma => (match v.toFloat? with | some f => .ok (.float f) | none => .stuck "numCast")
   | .byte =>
     (match v with
-     | .float f => .ok (.byte (wrap8 (floatToInt f)))      -- fptoui in range
+     | .float f =>
+       -- fptoui is undefined unless the truncated value fits 8 bits
+       if f.isNaN || f ≥ 256.0 || f ≤ -1.0 then .undef "Kommazahl outside the range of Byte"
+       else .ok (.byte (wrap8 (floatToInt f)))
      | _ => match v.toInt? with | some i => .ok (.byte (wrap8 i)) | none => .stuck "numCast")
   | _ => .stuck "numCast"
 
@@ -234,7 +255,9 @@ def castVal (v : Val) (t : Ty) : R Val :=
      | .float f => .ok (.text ((fmtFloatText f).toList.map Char.toNat))
      | .byte n => .ok (.text ((toString n).toList.map Char.toNat))
      | .bool b => .ok (.text ((if b then "wahr" else "falsch").toList.map Char.toNat))
-     | .char c => .ok (.text ((utf8OfCp c).toList.map Char.toNat))
+     | .char c =>
+       if c < 0 || c > 0x10FFFF || (0xD800 ≤ c && c ≤ 0xDFFF) then .undef "Buchstabe outside Unicode"
+       else .ok (.text ((utf8OfCp c).toList.map Char.toNat))
      | .text cps => .ok (.text cps)
      | _ => .stuck "cast text")
   | .list te vs, .liste _ => .ok (.list te vs)
